@@ -60,6 +60,13 @@ fn dlf_elements(f: &AFilter) -> Vec<&'static str> {
 /// 2: every filter with the elements of its own criteria only (a reduced / hand-written file), so that a later filter
 /// omits elements an earlier one has
 fn filter_list(fs: &[AFilter], dlf_style: u32) -> (Result<Vec<Filter>, String>, &'static str) {
+    // a panic of a loader is data (reported as a failed load), not the end of the driver
+    match catch(std::panic::AssertUnwindSafe(|| filter_list_inner(fs, dlf_style))) {
+        Ok(r) => r,
+        Err(p) => (Err(format!("panic: {}", p)), "panicked"),
+    }
+}
+fn filter_list_inner(fs: &[AFilter], dlf_style: u32) -> (Result<Vec<Filter>, String>, &'static str) {
     let dlf_ok = fs.iter().all(|f| !f.not && f.lcs.k == "none" && f.ecu.k != "re" && (f.typ.k == "none" || (f.typ.k == "mstp" && f.typ.v == 3))
         && !(f.pay.k == "sub" && !f.pay.ic)); // a literal case-sensitive payload text is left to C11 (known finding there)
     let conv_ok = !fs.is_empty() && fs.iter().all(|f| f.enabled && !f.not && f.kind == 0 && f.ecu.k == "none" && f.typ.k == "none" && f.lmin < 0 && f.lmax < 0
@@ -333,6 +340,10 @@ struct Out {
     t: Trace,
     case: u64,
     cases_written: u64,
+    /// at most this many TLC-predicted cases that differ from the prediction (or fail to load) are written; the verdict
+    /// only needs some of them - a tree that deviates everywhere must not flood the trace validation
+    deviating_cap: u64,
+    deviating: u64,
     stats: std::collections::BTreeMap<String, u64>,
 }
 impl Out {
@@ -494,7 +505,19 @@ fn run_case(o: &mut Out, fs: &[AFilter], amsgs: &[AMsg], streams: &[Vec<usize>],
     }
     o.bump("drift", drift);
     o.bump("fast_path", fast);
-    if !evs.is_empty() || failed.is_some() || sampled {
+    let deviates = !evs.is_empty() || failed.is_some();
+    let admitted = if deviates && pred.is_some() && !sampled {
+        o.deviating += 1;
+        if o.deviating_cap == 0 || o.deviating <= o.deviating_cap {
+            true
+        } else {
+            o.bump("deviating_cases_not_written_cap", 1);
+            false
+        }
+    } else {
+        true
+    };
+    if admitted && (deviates || sampled) {
         let mut hdr = json!({"F":fs,"msgs":amsgs,"src":src});
         if let Some(x) = xmsgs_hdr {
             hdr["xmsgs"] = json!(x);
@@ -515,7 +538,7 @@ fn run_case(o: &mut Out, fs: &[AFilter], amsgs: &[AMsg], streams: &[Vec<usize>],
 fn main() {
     quiet_panics();
     let a = Args::from_env();
-    let mut o = Out { t: Trace::create(&a.str("--out", "trace.ndjson")), case: 0, cases_written: 0, stats: Default::default() };
+    let mut o = Out { t: Trace::create(&a.str("--out", "trace.ndjson")), case: 0, cases_written: 0, deviating_cap: a.num("--deviating-cap", 0), deviating: 0, stats: Default::default() };
     let mut rng = Rng::new(a.num("--seed", 1));
     let sample = a.num("--sample", 200);
     let tmp = a.str("--tmp", ".");
